@@ -3,8 +3,13 @@
 // Fault enumeration (engine E4) on the real provider, both routers: for every
 // flow (one final request against a pre-state built by real requests and cloned
 // per execution) and every position k of the dynamic journal of storage calls
-// made by that request, call k is made to fail with every error kind; thorough
-// also every pair / triple of positions and every pair of method names. Every
+// made by that request, call k is made to fail with every error kind - the same
+// alphabet at every method: opaque, context errors (bare / wrapped / inside an
+// *oidc.Error), StatusError, an *oidc.Error of every type, and the sentinels the
+// storage interface documents or the library tests with errors.Is
+// (ErrDuplicateUserCode, ErrInvalidRefreshToken, ErrNoClientCredentials); then
+// every set of up to 4 (thorough: all) positions, "every call of method M fails
+// with kind K" for every method and kind, and every pair of method names. Every
 // execution is judged by the fail-closed predicate of the property statement,
 // written here from the statement alone (oracle_test.go).
 package c10
@@ -58,7 +63,7 @@ func TestCheck(t *testing.T) {
 	thorough := c.Thorough()
 	depth := engine.Pick(c, 4, 12)
 	msets := engine.Pick(c, 2, 2)
-	c.SetRule(fmt.Sprintf("E4 fault enumeration: per flow (final request on a cloned pre-state, both routers) the fault-free run, then every plan of up to %d failing dynamic journal positions (successors of a plan enumerated over the journal observed under that plan) x every error kind per position (%d kinds: opaque, context errors bare / wrapped / inside an *oidc.Error, StatusError, *oidc.Error of every type, the sentinels the storage interface documents or the library tests with errors.Is - each at every method), then 'every call of M fails with kind K' for every method name seen in any journal of the flow and every kind (the plan that defeats a retry loop of any length), and every unordered pair of names x every kind; distinct = distinct (part, oracle rule, observed outcome class) triples", depth, len(allKinds)))
+	c.SetRule(fmt.Sprintf("E4 fault enumeration: per flow (final request on a cloned pre-state, both routers) the fault-free run, then every plan of up to %d failing dynamic journal positions (successors of a plan enumerated over the journal observed under that plan) x every error kind per position (%d kinds: opaque, context errors bare / wrapped / inside an *oidc.Error, StatusError, *oidc.Error of every type, the sentinels the storage interface documents or the library tests with errors.Is - each at every method), then 'every call of M fails with kind K' for every method name seen in any journal of the flow and every kind (the plan that defeats a retry loop of any length), and every unordered pair of names x "+map[bool]string{true: "every kind", false: "the base kinds, a StatusError and the three bare sentinels (thorough: every kind)"}[thorough]+"; distinct = distinct (part, oracle rule, observed outcome class) triples", depth, len(allKinds)))
 	c.Assume(
 		"trusted base: refstore (reference storage, journals every call before applying the fault plan; an injected error is returned before any state change of that call), rig HTTP recorder, synctest clock frozen at the epoch for every execution",
 		"the statement's 'a call into the pluggable storage fails' is modelled as: the call returns one of "+strings.Join(allKinds, ", ")+" (RevokeToken, whose return type is *oidc.Error, returns the *oidc.Error kinds as they are and every other kind as server_error with the value as parent); the storage does not panic, hang or return (nil value, nil error); op.IDTokenHintExpiredError is not in the alphabet (cannot be constructed well-formed outside package op)",
@@ -84,6 +89,7 @@ func TestCheck(t *testing.T) {
 		Part:       "faults",
 		Flows:      names,
 		Kinds:      func(m string) []string { return kindsFor(m, thorough) },
+		PairKinds:  func(m string) []string { return pairKindsFor(m, thorough) },
 		Depth:      depth,
 		MethodSets: msets,
 		NewWorker: func(w int) func(engine.E4Plan) engine.E4Obs {
